@@ -16,6 +16,7 @@ from ..paths import path, pstr, root_var_id, last_field
 from ..moves import MoveAnalysis
 from ..locks import ScopeInfo, mutex_name
 from .. import witness, extract
+from .. import formula as F
 
 EXPLANATION = 'C04: R-MOVE over the dispatch funnel, funnel/lookup dataflow (who invokes listener lists, which list, which arguments), policy-selection witnesses.'
 ASSUMPTIONS = ['equality/hash semantics of user key types and the argument values themselves are not decided']
@@ -146,21 +147,31 @@ def check_funnel(ctx, tu):
             want2 = [p['id'] for p in f.params[1:]]
             ctx.ob('C04.F', f, 'dispatch forwards its own arguments to directDispatch in order', rest in (want1, want2),
                    detail='forwarded %s' % [pstr(path(f, a)) for a in args[1:]], where=f.nloc(n))
-    for f in tu.fns_named('EventDispatcherBase::doFindCallableListHelper'):
+    check_listener_management(ctx, tu, 'EventDispatcherBase', 'C04.F')
+
+
+def check_listener_management(ctx, tu, cls, rule, inv_key='CallbackListBase::operator()'):
+    """Lookup and per-event listener management of a dispatcher class map exactly onto the list operations."""
+    for f in tu.fns_named(cls + '::doFindCallableListHelper'):
         si = ScopeInfo(f)
         finds = [n for n in f.calls() if (f.callee(n) or {}).get('name') == 'find' and f.call_obj(n) and last_field(path(f, f.call_obj(n))) == 'eventCallbackListMap']
-        ctx.ob('C04.F', f, 'lookup performs exactly one find on eventCallbackListMap', len(finds) == 1)
+        ctx.ob(rule, f, 'lookup performs exactly one find on eventCallbackListMap', len(finds) == 1)
         for n in finds:
             a = f.call_args(n)
             okk = len(a) == 1 and arg_is_param(f, a[0], f.params[1]['id'])
             held = any(mutex_name(m) == 'listenerMutex' for m in si.node_held_must(n))
-            ctx.ob('C04.F', f, 'the map is searched for the given key under listenerMutex', okk and held,
+            ctx.ob(rule, f, 'the map is searched for the given key under listenerMutex', okk and held,
                    detail='key %s, lock held: %s' % (pstr(path(f, a[0])) if a else '?', held), where=f.nloc(n))
         # returns &it->second exactly when found
         rets = f.return_nodes()
-        ctx.ob('C04.F', f, 'lookup returns the found element or null', len(rets) == 2)
+        # returns &it->second on the found edge, null otherwise
+        found_ret = [r for r in rets if f.kids(r) and f.nodes[f.strip_all_casts(f.kids(r)[0])]['cls'] == 'UnaryOperator' and
+                     path(f, f.strip_all_casts(f.kids(r)[0]))[-2:] == ('.second', '&')]
+        ctx.ob(rule, f, 'lookup returns the address of the found element (or null)', len(found_ret) == 1 and len(rets) >= 2)
+    if cls != 'EventDispatcherBase':
+        pass
     for f in tu.fns:
-        if f.skey in ('EventDispatcherBase::dispatch', 'EventQueueBase::enqueue') and any(pn + ',' in f.clsq or pn + '>' in f.clsq for pn in POLICIES_WITH_GETEVENT):
+        if cls == 'EventDispatcherBase' and f.skey in ('EventDispatcherBase::dispatch', 'EventQueueBase::enqueue') and any(pn + ',' in f.clsq or pn + '>' in f.clsq for pn in POLICIES_WITH_GETEVENT):
             for n in f.calls():
                 cal = f.callee(n)
                 if cal and cal['name'] == 'getEvent':
@@ -169,7 +180,7 @@ def check_funnel(ctx, tu):
                                   % (f.q[:120], short(cal['key']), [pn for pn in POLICIES_WITH_GETEVENT if pn in f.clsq][0]),
                            where=f.nloc(n), key_detail='policy getEvent used')
     for name, op in LIST_OPS.items():
-        for f in tu.fns_named('EventDispatcherBase::' + name):
+        for f in tu.fns_named(cls + '::' + name):
             calls = [n for n in f.calls() if (f.callee(n) or {}).get('name') in ('append', 'prepend', 'insert')]
             ok = len(calls) == 1 and f.callee(calls[0])['name'] == op
             detail = ''
@@ -187,10 +198,22 @@ def check_funnel(ctx, tu):
                 got = [arg_var(f, a) for a in args]
                 ok = okobj and got == want
                 detail = 'object %s args %s' % (f.nodes[objn]['cls'], [pstr(path(f, a)) for a in args])
-            ctx.ob('C04.F', f, '%s performs exactly %s(callback...) on the list of the given event' % (name, op), ok, detail=detail)
-    for f in tu.fns_named('EventDispatcherBase::removeListener'):
+            ctx.ob(rule, f, '%s performs exactly %s(callback...) on the list of the given event' % (name, op), ok, detail=detail)
+    for f in tu.fns_named(cls + '::removeListener'):
         calls = [n for n in f.calls() if (f.callee(n) or {}).get('name') == 'remove']
         finds = [n for n in f.calls() if (f.callee_key(n) or '').endswith('::doFindCallableList')]
         ok = len(calls) == 1 and len(finds) == 1 and arg_is_param(f, f.call_args(finds[0])[0], f.params[0]['id']) \
             and arg_is_param(f, f.call_args(calls[0])[0], f.params[1]['id'])
-        ctx.ob('C04.F', f, 'removeListener removes the given handle from the list of the given event', ok)
+        ctx.ob(rule, f, 'removeListener removes the given handle from the list of the given event', ok)
+    for f in tu.fns_named(cls + '::hasAnyListener'):
+        finds = [n for n in f.calls() if (f.callee_key(n) or '').endswith('::doFindCallableList')]
+        em = [n for n in f.calls() if (f.callee(n) or {}).get('name') == 'empty']
+        ok = len(finds) == 1 and len(em) == 1 and arg_is_param(f, f.call_args(finds[0])[0], f.params[0]['id'])
+        if ok:
+            try:
+                fm = F.formula(f, inline=False)
+                ats = F.atoms(fm)
+                ok = len(ats) == 2
+            except F.Unsupported:
+                ok = False
+        ctx.ob(rule, f, 'hasAnyListener answers from the list of the given event', ok)
